@@ -333,10 +333,21 @@ func guardedFields(c *check.Ctx, db *lockDB, p *packages.Package, typeName strin
 		key := fmt.Sprintf("%s.%s.%s", model.ShortPkg(p.PkgPath), typeName, name)
 		ft := as[0].Field.Type()
 		if isSyncSafeType(ft) {
-			if armed {
-				c.OK(key, as[0].Node.Pos(), "field of concurrency-safe type %s", types.TypeString(ft, func(p *types.Package) string { return p.Name() }))
+			// the methods of a concurrency-safe object may be called from anywhere; overwriting the field that holds it
+			// (s.observers = sync.Map{} to "clear" it) is a plain write that races with those calls and, for a sync.Map or
+			// a mutex, resets the lock word under a goroutine that holds it
+			overwritten := false
+			for _, a := range as {
+				if a.Write && !a.Atomic {
+					overwritten = true
+				}
 			}
-			continue
+			if !overwritten {
+				if armed {
+					c.OK(key, as[0].Node.Pos(), "field of concurrency-safe type %s", types.TypeString(ft, func(p *types.Package) string { return p.Name() }))
+				}
+				continue
+			}
 		}
 		written := false
 		for _, a := range as {
